@@ -29,6 +29,34 @@ PROPS = {
         "exhaustive": {"quick": False, "thorough": False},
         "assumptions": TABLE_ASSUME,
     },
+    "C06": {
+        "rule": "cases = random trees over all exported AML constructors (grammar-aware generator: statements, expressions, data "
+                "objects, named objects, method calls with per-name arity, field lists; depth 1..6, node budget 60..300) plus a "
+                "directed family: Device/Scope/Scope::raw/Method and If/Else/While/PowerResource/VarPackage/Package with body sizes "
+                "10..70 and 4085..4100 (thorough: 2^20 +- 8), nested across a PkgLength width change; every case is parsed by the "
+                "Spec parser and compared with the expected tree; distinct = distinct case text; non-trivial = tree with >= 2 nodes",
+        "exhaustive": {"quick": False, "thorough": False},
+        "assumptions": COMMON_ASSUME + ["a Vec<u8> never exceeds isize::MAX bytes (body lengths < 2^63)",
+                                        "the parser is told the arity of every invoked method (collected from the case)"],
+        "level_text": "PARTIAL: the framing theorem (every PkgLength delimits exactly its body, all widths) is proved for all inputs; "
+                      "the full parse-back statement is not yet a theorem and rests on the Spec parser being run on the crate's bytes "
+                      "for every generated tree, plus model/implementation correspondence on the same trees.",
+    },
+    "C10": {
+        "rule": "cases = single descriptors of all 7 kinds x 3 widths with random and boundary arguments, all flag combinations; "
+                "resource templates of 0..40 descriptors in random order and with total sizes around 63/64, 255/256, 4095/4096, "
+                "65535/65536 bytes; distinct = distinct case text",
+        "exhaustive": {"quick": False, "thorough": False},
+        "assumptions": COMMON_ASSUME,
+    },
+    "C15": {
+        "rule": "cases = pairs (construction A, construction B): Scope::new vs Scope::raw with body sizes 0..4200 exhaustively "
+                "(thorough: 2^20 +- 16) and random child lists; Package vs PackageBuilder with 0..255 elements; &str vs String; "
+                "usize vs u64 over all 2^k +- 2 and random values; the two byte strings must be identical",
+        "exhaustive": {"quick": False, "thorough": False},
+        "exhaustive_note": "Scope::raw vs Scope::new body sizes 0..4200 are swept exhaustively",
+        "assumptions": COMMON_ASSUME,
+    },
     "C07": {
         "rule": "cases = (content size n, include_self) handed to the private create_pkg_length through the cfg hook; "
                 "quick: every n < 70000 in both forms, +-64 around 2^12, 2^20, 2^28, 200000 random n < 2^28, 20 sizes beyond 2^28; "
